@@ -74,7 +74,7 @@ def _impl_sig(h):
     a = h.impl.node.args
     pos = [p.arg for p in a.posonlyargs + a.args]
     skip = 2 if h.bound_attr_spec else 1
-    if h.impl.name == "init":
+    if h.impl_name == "init":
         skip = 2      # spec_cls, self
     npos = len(pos)
     ndef = len(a.defaults)
